@@ -77,7 +77,10 @@ Theorem invalid_format_featureinfo_refuted :
 Proof. exact featureinfo_format_unchecked_witness. Qed.
 
 (* A map request for more pixels than max_output_pixels is refused without effects - the limit applies to the
-   requested size, whatever part of the request lies inside the SRS extent or the layer extent. *)
+   requested size, whatever part of the request lies inside the SRS extent or the layer extent.  (The model has no
+   EXCEPTIONS input: check_map_request sets prevent_image_exception, so the refusal is the service exception document
+   also for EXCEPTIONS=blank / inimage - an image of the refused size would be the cost the limit exists to prevent;
+   the harness sends over-limit requests with these values and requires the error answer.) *)
 Theorem pixel_limit_no_effects :
   forall se ly cached q m, 0 < m < mw q * mh q -> serve_map (Some m) se ly cached q = (Err TooLarge, []).
 Proof. exact serve_map_pixel_limit. Qed.
